@@ -11,6 +11,7 @@ import (
 	"math"
 	"reflect"
 
+	"github.com/Tnze/go-mc/level"
 	pk "github.com/Tnze/go-mc/net/packet"
 )
 
@@ -21,6 +22,8 @@ type wireType struct {
 	L   string     `json:"l,omitempty"`
 	E   *wireType  `json:"e,omitempty"`
 	Es  []wireType `json:"es,omitempty"`
+	Kind string    `json:"kind,omitempty"` // palcont: blocks | biomes
+	Rb   int       `json:"rb,omitempty"`   // palcont: registry bits
 }
 
 func (t wireType) String() string { b, _ := json.Marshal(t); return string(b) }
@@ -39,6 +42,8 @@ func (t wireType) MarshalJSON() ([]byte, error) {
 		m["l"], m["e"] = t.L, t.E
 	case "tuple":
 		m["es"] = t.Es
+	case "palcont":
+		m["kind"], m["n"], m["rb"] = t.Kind, t.N, t.Rb
 	}
 	return json.Marshal(m)
 }
@@ -61,6 +66,8 @@ func (t wireType) class() string {
 		return s + ")"
 	case "fixedbits":
 		return "fixedbits"
+	case "palcont":
+		return "palcont(" + t.Kind + ")"
 	}
 	return t.T
 }
@@ -493,6 +500,30 @@ func (t wtuple) dest(prior string, like any) (pk.FieldDecoder, func() any) {
 	}
 }
 
+// paletted container: decode only (the value is not projected; C12 does that)
+type wpalcont struct{ t wireType }
+
+func (p wpalcont) enc(v any) pk.FieldEncoder { panic("palcont is decode-only in the Wire codec table") }
+func (p wpalcont) dest(prior string, like any) (pk.FieldDecoder, func() any) {
+	get := func() any { return []any{} }
+	if p.t.Kind == "blocks" {
+		c := level.NewStatesPaletteContainer(p.t.N, 0)
+		if prior == "longer" || prior == "sparecap" { // a container that already went through palette upgrades
+			for i := 0; i < 40 && i < p.t.N; i++ {
+				c.Set(i, level.BlocksState(i+1))
+			}
+		}
+		return c, get
+	}
+	c := level.NewBiomesPaletteContainer(p.t.N, 0)
+	if prior == "longer" || prior == "sparecap" {
+		for i := 0; i < 6 && i < p.t.N; i++ {
+			c.Set(i, level.BiomesState(i+1))
+		}
+	}
+	return c, get
+}
+
 // buildCodec: variant selects alternative but equivalent API forms (Ary by pointer/value, Option vs
 // OptionEncoder/OptionDecoder, Opt with *bool vs func() bool)
 func buildCodec(t wireType, variant int) wcodec {
@@ -503,6 +534,8 @@ func buildCodec(t wireType, variant int) wcodec {
 		return wopt{has: t.Has, in: buildCodec(*t.E, variant), style: variant % 2}
 	case "ary":
 		return aryOf(t.L, *t.E, variant%2 == 0)
+	case "palcont":
+		return wpalcont{t}
 	case "tuple":
 		in := make([]wcodec, len(t.Es))
 		for i := range t.Es {
